@@ -40,6 +40,12 @@ EXTRA = ['CN(=O)=O', 'C[N+](=O)[O-]', 'CN=[N+]=[N-]', 'CN=N#N', 'C[S+](C)[O-]', 
          'c1cc[nH+]cc1.[Cl-]', 'C[n+]1ccccc1.[I-]', 'Cc1[nH]cnc1C', 'Cc1nc[nH]c1C', 'O=C1NC(=O)c2ccccc12', 'OC1=NC(=O)c2ccccc12', 'CC(=O)Nc1ccc(O)cc1',
          'CC[n+]1ccn(C)c1', 'C[n+]1ccn(Cc2ccccc2)c1', 'Cc1cc[nH+][nH]1', 'CCN1C=C[N+](C)=C1', 'CC(C)[n+]1ccn(C)c1', 'Cc1[nH]cc[nH+]1',
          'Cn1cc[n+](c1)C[C@H](N)C(O)=O', 'CCn1cc[n+](C)c1C', 'C[n+]1csc2ccccc12', 'CCn1c[n+](C)c2ccccc12', 'CN(C)C(C)=[N+](C)CC',
+         # charge-separated spellings of neutral push-pull systems (fix_resonance has to find the path through chains and odd rings)
+         '[O-]C(C)=C1C=C(C=[N+](C)C)C=C1', '[O-]C(C)=C1C=CC(C=[N+](C)C)=C1', '[O-]C1=CC=C(C=C1)C=[N+](C)C', '[O-]C=CC=CC=[N+](C)C',
+         '[O-]C(C)=C1C=CC(=CC=C1)C=[N+](C)C', 'C[N+](C)=C1C=CC(=C[O-])C=C1', '[O-]C(=C1C=CC(=C1)C=[NH+]C)c1ccccc1', '[O-]C(C)=C1C=C(C=[O+]C)C=C1',
+         'CC(=[O+]C)C=CC=C[N-]C', '[CH2-]C=CC=[N+](C)C', '[O-]C(C)=C1C(C)=C(C=[N+](C)C)C=C1C', 'C[N+](C)=CC=C[O-]',
+         # quinoid aza-indoles / carbolines (anhydro bases) and their N-H parents
+         'N1C=CC2=NC=CC2=C1', 'CN1C=CC2=NC=CC2=C1', 'CN1C=CC2=CC=NC2=C1', 'CN1C=CC=C2N=CC=C12', 'CN1C=CC2=C3C=CC=CC3=NC2=C1', 'C1=CC=CC=C1N1C=CC2=NC=CC2=C1',
          '[H]OC', '[H]N([H])C(=O)C', '[2H]OC', 'C[C@H](N)C(=O)O', 'C[C@H]([NH3+])C([O-])=O', 'OC[C@H](O)[C@@H](O)[C@H](O)[C@H](O)C=O']
 
 
@@ -451,12 +457,16 @@ def worker(ctx):
                 d = G.graft(k, rng)
                 if d is not None:
                     variants.append((str(d), d, False))
+            ns = G.n_substitute(k, rng)
+            if ns is not None and rng.random() < .6:
+                ctx.count('inputs.n-substituted')
+                variants.append((str(ns), ns, False))
             q = G.quaternize(k, rng)
             if q is not None:
                 ctx.count('inputs.quaternized')
                 variants.append((str(q), q, False))
                 if ctx.tier == 'quick' and rng.random() < .7:
-                    variants = variants[-1:]
+                    variants = variants[-2:] if ns is not None else variants[-1:]
         except Exception:
             pass
         if ctx.tier == 'quick':
